@@ -460,4 +460,41 @@ theorem run_outside (env : Env) (f : Faults) (pre body post : List Step)
       rw [hl] at e2
       exact ((exec_outside env f.post none post (noEffect_effectsOnLoopPath h3) p hp 0 false s2).trans e2).trans e1
 
+/-! ### the working directory while the parse runs -/
+
+theorem targetPath_none (env : Env) (t : Target) : targetPath env none t = none := by
+  cases t <;> rfl
+
+/-- without a fault and outside the write loop a step that is not an encode check goes on, leaves the files alone and moves
+the working directory exactly as `cwdTrack` says -/
+theorem step1_noFault_track (env : Env) (c : Bool) (st : St) (s : Step) (h : s.kind ≠ .encodeCheck) :
+    ∃ c', step1 env false none c st s = .next c' ⟨st.files, cwdTrack env.chdirSteps st.cwd [s]⟩ := by
+  unfold step1
+  cases hk : s.kind <;> simp only [hk, cwdTrack, targetPath_none, Bool.false_eq_true, if_false] at h ⊢
+  case encodeCheck => exact absurd rfl h
+  all_goals exact ⟨_, rfl⟩
+
+theorem cwdTrack_cons (cs : List CStep) (cwd : Cwd) (s : Step) (rest : List Step) :
+    cwdTrack cs cwd (s :: rest) = cwdTrack cs (cwdTrack cs cwd [s]) rest := by
+  simp only [cwdTrack]
+  cases s.kind <;> rfl
+
+/-- a fault-free execution of steps that contain no encode check (everything before `parser.parse()`): it completes, no file
+changes, and the working directory is what `cwdTrack` computes — for every environment, file system and starting state -/
+theorem exec_noFault_track (env : Env) (steps : List Step) (hne : noEncodeCheck steps = true) :
+    ∀ (i : Nat) (c : Bool) (st : St),
+      exec env (fun _ => false) none i c st steps = .done ⟨st.files, cwdTrack env.chdirSteps st.cwd steps⟩ := by
+  induction steps with
+  | nil => intro i c st; rfl
+  | cons s rest ih =>
+    intro i c st
+    simp only [noEncodeCheck, List.all_cons, Bool.and_eq_true, bne_iff_ne, ne_eq] at hne
+    obtain ⟨c', h1⟩ := step1_noFault_track env c st s hne.1
+    have ih' := ih (by simpa [noEncodeCheck] using hne.2) (i + 1) c'
+      ⟨st.files, cwdTrack env.chdirSteps st.cwd [s]⟩
+    unfold exec
+    rw [h1]
+    simp only
+    rw [ih', ← cwdTrack_cons]
+
 end Dcg.Proofs.Write
